@@ -624,6 +624,27 @@ func runC01(c *Ctx, r *Report) {
 		}
 	}
 	// shared C11.R5: m + n keeps n's value on equal keys
+	r.Rule("C06.R3", "(shared with C06) an operator builds a new value: the result of array / map + does not carry (or share the element storage of) an operand (append into the spare capacity of the left operand rewrites an earlier result: c=a+11; d=c+12; e=c+13 makes d[11] 13)")
+	if !r.Sub {
+		sub := NewReport("C06", r.Tier, c)
+		sub.Sub = true
+		runC06(c, sub)
+		n := 0
+		for _, o := range sub.Obls {
+			if o.Rule != "C06.R3" {
+				continue
+			}
+			n++
+			if o.status == FAIL {
+				r.Fail(o.Rule, o.Func, o.Desc, o.Pos, o.Reason)
+			} else {
+				r.Ok(o.Rule, o.Func, o.Desc, o.Pos)
+			}
+		}
+		if n < 2 {
+			r.Undecided("C01: only %d shared C06.R3 obligations", n)
+		}
+	}
 	r.Rule("C11.R5", "(shared) map + map: the right operand's pairs are set over a copy of the left operand's")
 	{
 		sub := NewReport("C11", r.Tier, c)
